@@ -158,7 +158,7 @@ def remove_negligible_negative_values(material):
         material_sum = abs(material).sum()
         if material_sum > 1e-16:
             negligible = material[negative_index] / material_sum > -1e-16
-            material[negligible] = 0. 
+            material[tuple([np.asarray(i, int)[negligible] for i in negative_index])] = 0.
         else:
             material[negative_index] = 0. 
 
